@@ -311,95 +311,50 @@ Lemma var_uses_shallow_deep S : forall v t ld u, In u (var_uses false S v t ld) 
 Proof.
   induction v as [n p|p l|p l|p l|p b|p|p l|p vs IHvs|p fs IHfs] using value_ind'; intros t ld u H; try exact H.
   - (* list *)
-    cbn [var_uses] in *.
-    destruct (match t with Some t' => match strip_nonnull t' with TList _ i => Some i | _ => None end | None => None end) as [i|];
-      [|contradiction].
-    apply in_flat_map in H as [e [He Hu]]. apply in_flat_map. exists e. split; [exact He|].
-    rewrite Forall_forall in IHvs. apply (IHvs e He), Hu.
+    cbn [var_uses orb] in *.
+    destruct (match t with Some t' => match strip_nonnull t' with TList _ i => Some i | _ => None end | None => None end) as [i|].
+    + destruct (match t with Some t' => custom_scalar S (strip_nonnull t') | None => false end);
+        apply in_flat_map in H as [e [He Hu]]; apply in_flat_map; exists e; (split; [exact He|]);
+        rewrite Forall_forall in IHvs; apply (IHvs e He), Hu.
+    + destruct (match t with Some t' => custom_scalar S (strip_nonnull t') | None => false end); [exact H | contradiction].
   - (* object *)
-    cbn [var_uses] in *. revert H.
+    cbn [var_uses orb] in *. revert H.
     generalize (match t with
                 | Some t' => match unwrap_lists t' with
                              | TNamed n => match sp_type S (iname n) with Some (TDInput _ _ _ _ fields _) => fields | _ => [] end
                              | _ => [] end
                 | None => [] end) as defs. intros defs.
+    generalize (match t with Some t' => custom_scalar S (unwrap_lists t') | None => false end) as c. intros c.
     induction fs as [|[k fv] r IHr]; intros H; [contradiction|].
     inversion IHfs as [|? ? Hk Hr]; subst. apply in_app_or in H as [H|H]; apply in_or_app.
-    + left. destruct (find (fun d => str_eqb (iname (iv_name d)) (iname k)) defs) as [d|]; [|contradiction].
-      apply (Hk _ _ _ H).
+    + left. destruct (find (fun d => str_eqb (iname (iv_name d)) (iname k)) defs) as [d|].
+      * apply (Hk _ _ _ H).
+      * destruct c; [exact H | contradiction].
     + right. apply (IHr Hr H).
 Qed.
 
-Lemma arg_for_find (defs : list inputvaldef) d args kv :
-  NoDup (def_names defs) -> In d defs -> arg_for d args = Some kv ->
-  In kv args /\ find (fun d' => str_eqb (iname (iv_name d')) (iname (fst kv))) defs = Some d.
-Proof.
-  intros Hnd Hd Ha. unfold arg_for in Ha. apply find_some in Ha as [Hin Hn]. apply str_eqb_eq in Hn.
-  split; [exact Hin|].
-  assert (Hex : In (iname (fst kv)) (map (fun d0 => iname (iv_name d0)) defs)).
-  { rewrite <- Hn. apply (in_map (fun d0 => iname (iv_name d0))), Hd. }
-  destruct (find_by_name defs _ Hex) as [d' [Hf [Hd' Hn']]]. rewrite Hf. f_equal.
-  apply (NoDup_map_inj (fun d0 => iname (iv_name d0)) defs); auto. cbn. congruence.
-Qed.
-
-Lemma literal_full_vis S args defs :
-  NoDup (def_names defs) -> literal_types_ok S (args, defs) = true -> literal_types_vis S (args, defs) = true.
-Proof.
-  intros Hnd H. unfold literal_types_vis, literal_types_ok in *. cbn [fst snd] in *.
-  apply forallb_forall. intros d Hd. destruct (arg_for d args) as [kv|] eqn:Ea; [|reflexivity].
-  destruct (arg_for_find defs d args kv Hnd Hd Ea) as [Hin Hf].
-  rewrite forallb_forall in H. specialize (H kv Hin). rewrite Hf in H. exact H.
-Qed.
-
 Lemma args_uses_shallow_deep S args defs u :
-  NoDup (def_names defs) -> In u (args_var_uses false S args defs) -> In u (args_var_uses true S args defs).
+  In u (args_var_uses false S args defs) -> In u (args_var_uses true S args defs).
 Proof.
-  intros Hnd H. unfold args_var_uses in *. apply in_flat_map in H as [d [Hd Hu]].
-  destruct (arg_for d args) as [kv|] eqn:Ea; [|contradiction].
-  destruct (arg_for_find defs d args kv Hnd Hd Ea) as [Hin Hf].
-  apply in_flat_map. exists kv. split; [exact Hin|]. rewrite Hf. apply var_uses_shallow_deep, Hu.
+  intros H. unfold args_var_uses in *. apply in_flat_map in H as [kv [Hkv Hu]]. apply in_flat_map. exists kv. split; [exact Hkv|].
+  destruct (find (fun d => str_eqb (iname (iv_name d)) (iname (fst kv))) defs) as [d|]; [|contradiction].
+  apply var_uses_shallow_deep, Hu.
 Qed.
 
 Section Transfer.
   Variable S : tsdoc.
   Variable D : opdoc.
-  Hypothesis Hwf : schema_wf S = true.
 
-  Lemma field_defs_nodup p name f : In (TSType p) S -> sp_field p (iname name) = Some f -> NoDup (def_names (field_argdefs f)).
+  (** since /repo commit 7d19234 both readings judge every supplied value: the site rules coincide *)
+  Lemma site_ok_full_vis r x : site_ok false S D r x = true -> site_ok true S D r x = true.
+  Proof. intros H. destruct r; exact H. Qed.
+
+  Lemma site_uses_shallow_deep x u : In u (site_var_uses false S x) -> In u (site_var_uses true S x).
   Proof.
-    intros Hin Hsp. assert (Hc : is_composite p = true).
-    { unfold sp_field in Hsp. destruct (is_composite p); [reflexivity | discriminate]. }
-    destruct (proj2 (direct_fields_composite p) Hc) as [fields Edf].
-    rewrite <- (direct_fields_sp p fields (iname name) Edf) in Hsp.
-    apply (wf_field_args S p fields f Hwf Hin Edf). apply (find_some _ _ Hsp).
-  Qed.
-
-  Lemma dir_defs_nodup n dd : sp_directive S n = Some dd -> NoDup (def_names (dir_argdefs dd)).
-  Proof. intros H. rewrite <- get_directive_sp in H. apply (wf_directive S n dd Hwf H). Qed.
-
-  Lemma site_ok_full_vis r x : site_parent_ok S x -> site_ok false S D r x = true -> site_ok true S D r x = true.
-  Proof.
-    intros Hp H. destruct r; try exact H. cbn [site_ok] in *.
-    apply forallb_forall. intros a Ha. rewrite forallb_forall in H. specialize (H a Ha).
-    destruct x as [p name args sel|p name|p c|loc ds|n]; cbn [arg_sites] in Ha; try contradiction.
-    - destruct p as [p|]; [|contradiction]. destruct (sp_field p (iname name)) as [f|] eqn:Ef; [|contradiction].
-      destruct Ha as [<-|[]]. apply literal_full_vis; [apply (field_defs_nodup p name f Hp Ef) | exact H].
-    - apply in_flat_map in Ha as [d [Hd Ha]]. destruct (sp_directive S (iname (dir_name d))) as [dd|] eqn:Edd; [|contradiction].
-      destruct Ha as [<-|[]]. apply literal_full_vis; [apply (dir_defs_nodup _ dd Edd) | exact H].
-  Qed.
-
-  Lemma site_uses_shallow_deep x u : site_parent_ok S x -> In u (site_var_uses false S x) -> In u (site_var_uses true S x).
-  Proof.
-    intros Hp H. destruct x as [p name args sel|p name|p c|loc ds|n]; cbn [site_var_uses] in *; try contradiction.
-    - destruct p as [p|].
-      + destruct (sp_field p (iname name)) as [f|] eqn:Ef.
-        * apply args_uses_shallow_deep; [apply (field_defs_nodup p name f Hp Ef) | exact H].
-        * apply args_uses_shallow_deep; [constructor | exact H].
-      + apply args_uses_shallow_deep; [constructor | exact H].
+    intros H. destruct x as [p name args sel|p name|p c|loc ds|n]; cbn [site_var_uses] in *; try contradiction.
+    - apply args_uses_shallow_deep, H.
     - apply in_flat_map in H as [d [Hd Hu]]. apply in_flat_map. exists d. split; [exact Hd|].
-      destruct (sp_directive S (iname (dir_name d))) as [dd|] eqn:Edd.
-      + apply args_uses_shallow_deep; [apply (dir_defs_nodup _ dd Edd) | exact Hu].
-      + apply args_uses_shallow_deep; [constructor | exact Hu].
+      apply args_uses_shallow_deep, Hu.
   Qed.
 End Transfer.
 
@@ -452,7 +407,7 @@ Section FullToVis.
       { apply in_app_or in Hx as [Hx|Hx].
         - split; [apply (vis_in_all o x Ho Hx) | apply (vis_sites_full S D o nocyc x Hx)].
         - split; [apply (op_sites_all o x Ho); apply in_or_app; right; exact Hx | apply (const_parent_ok o x Hx)]. }
-      destruct Hall as [Hall Hpar]. apply (site_ok_full_vis S D Hwf r' x Hpar).
+      destruct Hall as [Hall Hpar]. apply (site_ok_full_vis S D r' x).
       pose proof (Hfull r') as Hf.
       destruct r'; try contradiction; cbn [rule_ok] in Hf;
         try (rewrite forallb_forall in Hf; apply Hf, Hall).
@@ -471,11 +426,11 @@ Section FullToVis.
       unfold op_vars_defined, vars_defined_on in *. apply andb_true_iff in Hf as [Hf1 Hf2]. rewrite andb_true_iff. split.
       + apply forallb_forall. intros x Hx. apply forallb_forall. intros u Hu.
         rewrite forallb_forall in Hf1. specialize (Hf1 x (vis_in_scope o x Hx)). rewrite forallb_forall in Hf1.
-        apply Hf1. apply (site_uses_shallow_deep S Hwf x u); [apply (vis_sites_full S D o nocyc x Hx) | exact Hu].
+        apply Hf1. apply (site_uses_shallow_deep S x u Hu).
       + apply forallb_forall. intros x Hx. rewrite forallb_forall in Hf2. specialize (Hf2 x Hx).
         destruct (site_var_uses false S x) as [|u us] eqn:E; [reflexivity|].
         assert (Hin : In u (site_var_uses true S x)).
-        { apply (site_uses_shallow_deep S Hwf x u (const_parent_ok o x Hx)). rewrite E. left. reflexivity. }
+        { apply (site_uses_shallow_deep S x u). rewrite E. left. reflexivity. }
         destruct (site_var_uses true S x); [contradiction | discriminate].
     - (* variable usages *)
       apply forallb_forall. intros ov Hov. unfold vis_doc_sites in Hov. apply in_map_iff in Hov as [o [<- Ho]]. cbn [fst snd].
@@ -483,7 +438,7 @@ Section FullToVis.
       unfold op_var_usage_ok, var_usage_on in *.
       apply forallb_forall. intros x Hx. apply forallb_forall. intros u Hu.
       rewrite forallb_forall in Hf. specialize (Hf x (vis_in_scope o x Hx)). rewrite forallb_forall in Hf.
-      apply Hf. apply (site_uses_shallow_deep S Hwf x u); [apply (vis_sites_full S D o nocyc x Hx) | exact Hu].
+      apply Hf. apply (site_uses_shallow_deep S x u Hu).
     - (* fragment targets *)
       pose proof (Hfull R_fragment_targets) as Hf. cbn [rule_ok] in Hf. apply andb_true_iff in Hf as [Hf1 _].
       rewrite andb_true_iff. split; [exact Hf1|].
@@ -501,13 +456,14 @@ Theorem complete_full S D :
   schema_wf S = true -> schema_closed S = true ->
   spec_valid S D = true -> doc_guard S D = true ->
   (forall o, In o (doc_ops D) -> op_type o = Subscription ->
-     count_fields (doc_fuel D) (doc_frags D) [] (op_sel o) <= 1) ->
+     length (collect_response_keys (doc_fuel D) (doc_frags D) [] (op_sel o) []) <= 1) ->
+  forallb (fun f => mem_str (iname (fr_name f)) (spread_by_operations (doc_fuel D) (doc_frags D) (od_defs D))) (doc_frags D) = true ->
   check_operation_document S D = [].
 Proof.
-  intros Hwf Hcl Hvalid Hguard Hsub.
+  intros Hwf Hcl Hvalid Hguard Hsub Hspread.
   assert (Hfull : forall r, rule_ok S D r = true).
   { intros r. unfold spec_valid in Hvalid. rewrite forallb_forall in Hvalid. apply Hvalid, all_rules_complete. }
-  apply (complete_vis S D Hwf Hcl); [|exact Hsub].
+  apply (complete_vis S D Hwf Hcl); [|exact Hsub|exact Hspread].
   unfold doc_fine_vis. rewrite Hguard, andb_true_r. apply forallb_forall. intros r _.
-  apply (full_to_vis S D Hwf Hfull).
+  apply (full_to_vis S D Hfull).
 Qed.
